@@ -79,3 +79,79 @@ macro_rules! pack {
 }
 pack!(pack_f64, f64, 52, 2047);
 pack!(pack_f32, f32, 23, 255);
+
+/// Slow-path digit accumulator (`slow::parse_mantissa`) at a reduced digit cap. The real cap
+/// (769 / 114 digits) is a parameter of the function; here it is symbolic in 1..=MAXCAP and the
+/// digit strings are short, so every interaction of "cap reached in the integer part / in the
+/// fraction / not at all" with "non-zero digit among the dropped ones" is inside the bound.
+/// Oracle: the significant digits (leading zeros stripped) cut to the cap, plus one sticky digit
+/// 1 exactly when a dropped digit is non-zero.
+macro_rules! mant {
+    ($name:ident, $ni:expr, $nf:expr, $maxcap:expr, $u:literal) => {
+        #[kani::proof]
+        #[kani::unwind($u)]
+        fn $name() {
+            let ib: [u8; $ni] = kani::any();
+            let fb: [u8; $nf] = kani::any();
+            let ni: usize = kani::any();
+            let nf: usize = kani::any();
+            kani::assume(ni <= $ni && nf <= $nf);
+            let has_frac: bool = kani::any();
+            kani::assume(has_frac || nf == 0);
+            let cap: usize = kani::any();
+            kani::assume(cap >= 1 && cap <= $maxcap);
+            // reference
+            let mut value: u64 = 0;
+            let mut count: usize = 0;
+            let mut started = false;
+            let mut sticky = false;
+            let mut k = 0;
+            while k < $ni + $nf {
+                let present = if k < $ni { k < ni } else { k - $ni < nf };
+                if present {
+                    let c = if k < $ni { ib[k] } else { fb[k - $ni] };
+                    kani::assume(c >= b'0' && c <= b'9');
+                    let d = (c - b'0') as u64;
+                    if d != 0 {
+                        started = true;
+                    }
+                    if started {
+                        if count < cap {
+                            value = value * 10 + d;
+                            count += 1;
+                        } else if d != 0 {
+                            sticky = true;
+                        }
+                    }
+                }
+                k += 1;
+            }
+            if sticky {
+                value = value * 10 + 1;
+                count += 1;
+            }
+            let num = Number {
+                exponent: 0,
+                mantissa: 0,
+                is_negative: false,
+                many_digits: true,
+                integer: &ib[..ni],
+                fraction: if has_frac { Some(&fb[..nf]) } else { None },
+            };
+            let (big, n) = lexical_parse_float::slow::parse_mantissa::<STANDARD>(num, cap);
+            assert!(n == count, "significant digit count");
+            let limbs: &[lexical_parse_float::bigint::Limb] = &big.data;
+            if value == 0 {
+                assert!(limbs.len() == 0 || (limbs.len() == 1 && limbs[0] == 0), "zero mantissa");
+            } else {
+                assert!(limbs.len() == 1 && limbs[0] as u64 == value, "big-integer mantissa differs from the truncated digits plus sticky digit");
+            }
+            kani::cover!(sticky && ni > 0 && nf > 0, "digits dropped with a fraction present");
+            kani::cover!(count == cap && !sticky, "cap reached exactly");
+            kani::cover!(count < cap && count > 0, "cap not reached");
+            core::mem::forget(big);
+        }
+    };
+}
+mant!(mant_2_2, 2, 2, 2, 8);
+mant!(mant_3_3, 3, 3, 4, 12);
